@@ -74,6 +74,22 @@ def _judge(sig, res):
                 probs.append(("missing-edge", "force=%s '%s: missing %s" % (force, r, sorted(map(str, miss)))))
             if extra:
                 probs.append(("extra-edge", "force=%s '%s: extra %s" % (force, r, sorted(map(str, extra)))))
+        # StructBorrowInfo.borrowed_struct_lifetime_map (drives the append arrays of Dart / JS struct conversion) must be the
+        # inverse of the struct edges: def-lifetime d of struct parameter p lists return lifetime r  <=>  r has the edge (p, struct, d)
+        want_maps = {}
+        for r, want in exp.items():
+            for (pn, kind, d) in want:
+                if kind == "struct":
+                    want_maps.setdefault(pn, {}).setdefault(d, set()).add(r)
+        got_maps = {pn: {d: set(v) for d, v in mp.items()} for pn, mp in (o.get("struct_maps") or {}).items()}
+        if force == "true":
+            # with force_include_slices extra lifetimes may be tracked: only the part over the return lifetimes is specified
+            got_maps = {pn: {d: (v & set(exp)) for d, v in mp.items() if v & set(exp)} for pn, mp in got_maps.items()}
+            got_maps = {pn: mp for pn, mp in got_maps.items() if mp}
+        if got_maps != want_maps:
+            probs.append(("struct-map", "force=%s borrowed_struct_lifetime_map %s, expected %s" % (
+                force, json.dumps({p_: {d: sorted(v) for d, v in m_.items()} for p_, m_ in sorted(got_maps.items())}, sort_keys=True),
+                json.dumps({p_: {d: sorted(v) for d, v in m_.items()} for p_, m_ in sorted(want_maps.items())}, sort_keys=True))))
         if force == "false":
             extra_keys = set(edges) - set(exp)
             if extra_keys:
